@@ -365,7 +365,12 @@ func TestVerifC01(t *testing.T) {
 // uploads). Whatever the handlers share (buffers, pools), a 200 must carry
 // exactly the bytes of the hash that was asked for.
 func c01Concurrent(t *testing.T, run *verifkit.Run, hs *vkHTTP, base string) {
-	n := run.N(24, 400)
+	vkConcurrent(t, run, hs, base, "C01", run.N(24, 400))
+}
+
+// vkConcurrent is shared by C01 (G1/P2 under concurrency) and C02 ("once
+// acknowledged, retrievable", with aborted uploads and overlapping requests).
+func vkConcurrent(t *testing.T, run *verifkit.Run, hs *vkHTTP, base string, prop string, n int) {
 	caseNo := 0
 	run.Cases("conc", n, func(i int, rng *verifkit.Rand) {
 		caseNo++
@@ -433,7 +438,7 @@ func c01Concurrent(t *testing.T, run *verifkit.Run, hs *vkHTTP, base string) {
 							g := hs.Do("GET", "/"+hashes[b], nil, vkRootToken)
 							run.Eval(1)
 							if g.Status != 200 || !bytes.Equal(g.Body, blocks[b]) {
-								run.Violation("C01:P2:concurrent:acked-put-not-retrievable", fmt.Sprintf("PUT %s acknowledged, GET gives %d with md5 %s", hashes[b], g.Status, verifkit.MD5Hex(g.Body)), nil)
+								run.Violation(prop+":P2:concurrent:acked-put-not-retrievable", fmt.Sprintf("PUT %s acknowledged, GET gives %d with md5 %s", hashes[b], g.Status, verifkit.MD5Hex(g.Body)), nil)
 							}
 						}
 					default:
@@ -447,7 +452,7 @@ func c01Concurrent(t *testing.T, run *verifkit.Run, hs *vkHTTP, base string) {
 									other = "the bytes of another block that was requested concurrently"
 								}
 							}
-							run.Violation("C01:G1:concurrent:get200-wrong-bytes", fmt.Sprintf("GET %s answered 200 (Content-Length %s) with a body whose md5 is %s: %s", hashes[b], r.CLenH, verifkit.MD5Hex(r.Body), other), nil)
+							run.Violation(prop+":G1:concurrent:get200-wrong-bytes", fmt.Sprintf("GET %s answered 200 (Content-Length %s) with a body whose md5 is %s: %s", hashes[b], r.CLenH, verifkit.MD5Hex(r.Body), other), nil)
 						}
 					}
 				}
